@@ -297,7 +297,7 @@ Definition c_parse_collection_body (fuel : nat) (s : pstate) : cres val :=
       match build crank context items with
       | BVal v => CYes v tyt s2
       | BNotAssociations => CStop (PSyntax tyt) s2
-      | BCollator => CStop (PRuntime RCollator) s2
+      | BCollator => CStop (PSyntax tyt) s2
       | BUnknown => CStop (PRuntime RUnknownType) s2
       end
     end
